@@ -367,6 +367,10 @@ def check(case, rec):
             bad("cli-doc-data", "converted file holds %r / %r, document "
                 "%r / %r" % (doc2.get("shape"), doc2.get("data"),
                              doc["shape"], doc["data"]))
+        if doc["type"] not in (None, "None", "") and \
+                doc2.get("type") != doc["type"]:
+            bad("cli-doc-type", "converted file says type %r, the table's "
+                "type is %r" % (doc2.get("type"), doc["type"]))
         rec.cls("writer:convert-command")
 
     # (3) reading back
